@@ -9,13 +9,16 @@ ItemConstructs == {"multi_tuple_struct", "multi_tuple_variant", "flatten_field",
                    "const_string", "const_float", "const_expr", "const_bool", "const_path"}
 \* a negated (or parenthesized) integer literal is still an integer literal: it must be generated with its value
 Supported == {"const_neg", "const_paren"}
+\* an adjacently tagged enum whose only data-carrying variant may be skipped: with the skip marker what is left is a unit enum
+\* that carries tag / content (unsupported); without it the enum is an ordinary algebraic enum (supported)
+SkipMakesUnsupported == {"tagged_enum_only_data_variant"}
 Unsupported == TypeConstructs \cup ItemConstructs
 
 \* where a skip marker can shelter the construct
 Skippable(c) == \/ c.construct \in TypeConstructs /\ c.carrier \in {"field", "vfield", "payload", "sas_field"}
-                \/ c.construct \in {"multi_tuple_variant", "flatten_field", "flatten_vfield"}
-Sheltered(c) == c.skip # "none" /\ Skippable(c)
-MustReject(c) == c.construct \in Unsupported /\ ~Sheltered(c)
+                \/ c.construct \in {"multi_tuple_variant", "flatten_field", "flatten_vfield"} \cup SkipMakesUnsupported
+Sheltered(c) == c.skip # "none" /\ Skippable(c) /\ c.construct \notin SkipMakesUnsupported
+MustReject(c) == IF c.construct \in SkipMakesUnsupported THEN c.skip # "none" ELSE c.construct \in Unsupported /\ ~Sheltered(c)
 
 \* an observed run conforms; value_ok: every constant in the output carries the value written in the source
 Conforms(c, outcome, touched, value_ok) ==
